@@ -1120,8 +1120,14 @@ def convpipe_family(tier, seed):
             ns["SrcInner"], ns["DstInner"] = SrcInner, DstInner
         sf = [(n, int) for n in cfg["src_fields"]]
         df = [(n, int) if not opt else (n, int, dataclasses.field(default=0)) for n, opt in cfg["dst_fields"]]
+        if cfg.get("dict_field"):
+            # a container field with the very same annotation on both sides
+            from typing import Dict
+            sf.append(("m", Dict[str, int]))
+            df.insert(0, ("m", Dict[str, int]))
         if inner:
-            sf.append(("n", ns["SrcInner"]))
+            if not cfg.get("inner_param"):      # (otherwise the nested source model is a converter parameter `n`)
+                sf.append(("n", ns["SrcInner"]))
             # a required field may not follow one with a default: put the nested model first
             df.insert(0, ("n", ns["DstInner"]))
         ns["Src"] = dataclasses.make_dataclass("Src", sf)
@@ -1162,6 +1168,9 @@ def convpipe_family(tier, seed):
                 out.append(link_function(f, P[lvl][it["dst"]]))
             elif k == "allow":
                 out.append(allow_unlinked_optional(P[lvl][it["dst"]]))
+        if cfg.get("same_type_coercer"):
+            from adaptix._internal.conversion.facade.provider import coercer
+            out.append(coercer(int, int, user_coercer))
         return out
 
     def gen_cfg():
@@ -1247,6 +1256,32 @@ def convpipe_family(tier, seed):
         {"src_fields": ["a"], "dst_fields": [("a", False)], "params": ["p", "q"], "inner": {"src_fields": ["a"], "dst_fields": [("a", False), ("p", False)]},
          "recipe": [{"k": "link_re", "alts": ["p", "q"], "dst": "p", "level": "inner"}]},
     ]
+    fixed += [
+        # the nested source model is an extra PARAMETER of the converter; another parameter is named like a field of the nested
+        # model: fields of a nested destination are never taken from converter parameters by name
+        {"src_fields": ["a"], "dst_fields": [("a", False)], "params": ["n", "p"], "inner_param": True,
+         "inner": {"src_fields": ["a", "p"], "dst_fields": [("a", False), ("p", False)]}, "recipe": []},
+        {"src_fields": ["a", "b"], "dst_fields": [("a", False), ("b", False)], "params": ["a", "n"], "inner_param": True,
+         "inner": {"src_fields": ["a", "q"], "dst_fields": [("a", False)]}, "recipe": []},
+        {"src_fields": ["a"], "dst_fields": [("a", False)], "params": ["p", "n"], "inner_param": True,
+         "inner": {"src_fields": ["a", "p"], "dst_fields": [("a", False), ("p", False)]},
+         "recipe": [{"k": "link_param", "param": "p", "dst": "p", "level": "inner"}]},
+        # an optional destination field that MAY stay unlinked but has a link that is not by name: the link wins
+        {"src_fields": ["a", "x"], "dst_fields": [("a", False), ("d", True)], "params": [],
+         "recipe": [{"k": "allow", "dst": "d", "level": "top"}, {"k": "link", "src": "x", "dst": "d", "level": "top"}]},
+        {"src_fields": ["a"], "dst_fields": [("a", False), ("d", True)], "params": [],
+         "recipe": [{"k": "allow", "dst": "d", "level": "top"}, {"k": "const", "dst": "d", "value": 5, "level": "top"}]},
+        {"src_fields": ["a"], "dst_fields": [("a", False), ("d", True)], "params": ["d"],
+         "recipe": [{"k": "allow", "dst": "d", "level": "top"}]},
+        {"src_fields": ["a", "b"], "dst_fields": [("a", False), ("d", True), ("z", True)], "params": ["extra"],
+         "recipe": [{"k": "allow", "dst": "d", "level": "top"}, {"k": "allow", "dst": "z", "level": "top"},
+                    {"k": "func", "dst": "d", "kwonly": ["b"], "pos": [], "level": "top"}, {"k": "link_param", "param": "extra", "dst": "z", "level": "top"}]},
+        # containers of the very same type on both sides are still converted element-wise (a same-type user coercer reaches the
+        # elements; the result never holds the source's container)
+        {"src_fields": ["a"], "dst_fields": [("a", False)], "params": [], "dict_field": True, "recipe": []},
+        {"src_fields": ["a", "b"], "dst_fields": [("a", False), ("b", False)], "params": ["b"], "dict_field": True, "same_type_coercer": True,
+         "recipe": []},
+    ]
     n_rand = 150 if tier == "quick" else 1500
     cfgs = fixed + [gen_cfg() for _ in range(n_rand)]
     for idx, cfg in enumerate(cfgs):
@@ -1256,7 +1291,8 @@ def convpipe_family(tier, seed):
             acc = CodeGenAccumulator()
             retort = ConversionRetort(recipe=[*build_recipe(cfg, ns), acc])
             params = [Parameter("src", Parameter.POSITIONAL_OR_KEYWORD, annotation=ns["Src"])] + \
-                     [Parameter(pn, Parameter.POSITIONAL_OR_KEYWORD, annotation=int) for pn in cfg["params"]]
+                     [Parameter(pn, Parameter.POSITIONAL_OR_KEYWORD, annotation=ns["SrcInner"] if cfg.get("inner_param") and pn == "n" else int)
+                      for pn in cfg["params"]]
             sig = Signature(parameters=params, return_annotation=ns["Dst"])
             try:
                 retort._produce_converter(signature=sig, stub_function=None, function_name="conv")
